@@ -744,31 +744,37 @@ class BodyParser:
         return lhs
 
     def parse_unary(self, nostruct):
+        """operand of a binary operator: unary-expression followed by any number of `as T`
+        (`as` binds weaker than the unary operators: `-x as u32` is `(-x) as u32`)."""
+        c = self.c
+        e = self.parse_prefix(nostruct)
+        while c.at("as"):
+            a = c.next()
+            e = ("cast", a.line, e, parse_type(c))
+        return e
+
+    def parse_prefix(self, nostruct):
         c = self.c
         t = c.peek()
         if t is None:
             self.fail("expression expected")
         if c.at("-"):
             c.next()
-            return ("neg", t.line, self.parse_unary(nostruct))
+            return ("neg", t.line, self.parse_prefix(nostruct))
         if c.at("!"):
             c.next()
-            return ("not", t.line, self.parse_unary(nostruct))
+            return ("not", t.line, self.parse_prefix(nostruct))
         if c.at("*"):
             c.next()
-            return ("deref", t.line, self.parse_unary(nostruct))
+            return ("deref", t.line, self.parse_prefix(nostruct))
         if c.at("&"):
             c.next()
             if c.at("mut"):
                 self.fail("`&mut` expression not supported")
-            return ("ref", t.line, self.parse_unary(nostruct))
+            return ("ref", t.line, self.parse_prefix(nostruct))
         if c.at("&&"):
             self.fail("`&&` reference not supported")
-        e = self.parse_postfix_from(self.parse_primary(nostruct), nostruct)
-        while c.at("as"):
-            a = c.next()
-            e = ("cast", a.line, e, parse_type(c))
-        return e
+        return self.parse_postfix_from(self.parse_primary(nostruct), nostruct)
 
     def parse_args(self):
         c = self.c
@@ -964,7 +970,9 @@ PRELUDE_NAMES = {v[0] for v in PRIM_METHODS.values()} | {
     f"{t}_{o}" for t in ("i32", "u32") for o in list(BIN_ARITH.values()) + list(BIN_CMP.values())} | {
     "i32_neg", "bool_and", "bool_or", "bool_not", "bool_eq", "bool_ne", "u32_saturating_as_i32", "u32_as_i32", "i32_as_u32",
     "range_i32_new", "rangeinclusive_i32_new", "option_is_some_and", "debug_assert", "Point", "Size", "Rectangle",
-    "RangeI32", "RangeInclusiveI32"}
+    "RangeI32", "RangeInclusiveI32"} | {
+    f"{t}_{p}{f}" for t, fs in (("Point", ("x", "y")), ("Size", ("width", "height")), ("Rectangle", ("top_left", "size")))
+    for f in fs for p in ("", "set_")} | {"Point_mk", "Size_mk", "Rectangle_mk", "RectSrc"}
 
 
 class Translator:
@@ -1080,7 +1088,10 @@ class Translator:
         where = f"{f.rel} fn {(f.impl_type + '::') if f.impl_type else ''}{f.name}"
         self.where = where
         st = f.impl_type
-        env = {}
+        # `%tail`: the position is a tail position of the function (a `return` there is the function's value);
+        # `%frozen`: variables that must not be assigned (we are inside a value-position block: the rebinding
+        # would be lost when the block ends)
+        env = {"%tail": True, "%frozen": frozenset()}
         params = []
         if f.self_kind is not None:
             if st is None:
@@ -1114,6 +1125,25 @@ class Translator:
                + (" (`&mut self`: returns the updated `self`)" if f.self_kind == "refmut" else "") + " -/\n"
         return f"{head}def {name}{' ' if ps else ''}{ps} : {self.lean_type(lret)} :=\n  {body}\n"
 
+    @staticmethod
+    def nt(env):
+        """the same environment, for a sub-expression that is not in tail position"""
+        if env.get("%tail"):
+            env = dict(env)
+            env["%tail"] = False
+        return env
+
+    @staticmethod
+    def freeze(env):
+        env = dict(env)
+        env["%frozen"] = frozenset(k for k in env if not k.startswith("%"))
+        return env
+
+    def check_assignable(self, root, env, line):
+        if root in env["%frozen"]:
+            raise RectTrError(f"{self.where}: line {line}: `{root}` is modified inside a block used as a value; "
+                              f"the translator would lose the update (not supported)")
+
     def unify(self, got, want, where):
         if want is None or got == want:
             return got
@@ -1144,30 +1174,32 @@ class Translator:
             if pat[0] != "pbind":
                 raise RectTrError(f"{self.where}: line {line}: only `let name = ..` is supported")
             want = self.norm_type(ty, ctx["self_type"]) if ty is not None else None
-            txt, t = self.tr_expr(e, env, ctx, want, ind + 2)
+            txt, t = self.tr_expr(e, self.nt(env), ctx, want, ind + 2)
             if t == "int?":
                 raise RectTrError(f"{self.where}: line {line}: cannot tell the type of the integer literal bound to `{pat[2]}`")
             t = self.unify(t, want, f"{self.where}: line {line}")
             env2 = dict(env)
             env2[pat[2]] = t
+            env2["%frozen"] = env["%frozen"] - {pat[2]}
             r, rt = rest(env2)
             return f"let {self.lvar(pat[2])} := {txt};\n{pad}{r}", rt
         if kind == "assign":
             _, line, op, lhs, rhs = s
             root, fields = self.place(lhs, env, line)
+            self.check_assignable(root, env, line)
             rtype = env[root]
             # type of the place
             pt = rtype
             for fl in fields:
                 pt = self.field_type(pt, fl, line)
             if op == "=":
-                val, vt = self.tr_expr(rhs, env, ctx, pt, ind + 2)
+                val, vt = self.tr_expr(rhs, self.nt(env), ctx, pt, ind + 2)
                 self.unify(vt, pt, f"{self.where}: line {line}")
             else:
                 if pt not in ("i32", "u32"):
                     raise RectTrError(f"{self.where}: line {line}: `{op}` on {type_str(pt)} not supported")
                 cur = self.place_read(root, fields, rtype)
-                rv, vt = self.tr_expr(rhs, env, ctx, pt, ind + 2)
+                rv, vt = self.tr_expr(rhs, self.nt(env), ctx, pt, ind + 2)
                 self.unify(vt, pt, f"{self.where}: line {line}")
                 val = f"({pt}_{BIN_ARITH[op[0]]} {cur} {rv})"
             new = self.place_write(self.lvar(root), rtype, fields, val, line)
@@ -1184,7 +1216,7 @@ class Translator:
                 args = e[2]
                 if not (1 <= len(args) <= 2) or (len(args) == 2 and args[1][0] != "str"):
                     raise RectTrError(f"{self.where}: line {line}: debug_assert!(cond, \"message\") expected")
-                cnd, ctyp = self.tr_expr(args[0], env, ctx, "bool", ind + 2)
+                cnd, ctyp = self.tr_expr(args[0], self.nt(env), ctx, "bool", ind + 2)
                 self.unify(ctyp, "bool", f"{self.where}: line {line}")
                 r, rt = rest(env)
                 return f"debug_assert {cnd} (\n{pad}{r})", rt
@@ -1193,6 +1225,7 @@ class Translator:
                 v = e[2][2][0]
                 g = self.find_method(env[v], e[3], f"{self.where}: line {line}")
                 if g.self_kind == "refmut":
+                    self.check_assignable(v, env, line)
                     where = self.where
                     gname = self.need(g)
                     self.where = where
@@ -1201,7 +1234,7 @@ class Translator:
                     return f"let {self.lvar(v)} := RectSrc.{gname} {self.lvar(v)}{''.join(' ' + a for a in args)};\n{pad}{r}", rt
             if e[0] == "if":
                 _, _, cond, then, els = e
-                cnd, ctyp = self.tr_expr(cond, env, ctx, "bool", ind + 2)
+                cnd, ctyp = self.tr_expr(cond, self.nt(env), ctx, "bool", ind + 2)
                 self.unify(ctyp, "bool", f"{self.where}: line {line}")
                 a, at = self.tr_stmts(then[2], 0, then[3], env, ctx, expected, rest, ind + 2)
                 if els is None:
@@ -1231,6 +1264,9 @@ class Translator:
         return a
 
     def tr_return(self, e, env, ctx, ind):
+        if not env.get("%tail"):
+            raise RectTrError(f"{self.where}: line {e[1]}: `return` inside an expression whose value is used "
+                              f"(not a tail position of the function): not supported")
         if ctx["mut_self"]:
             if e[2] is not None:
                 raise RectTrError(f"{self.where}: line {e[1]}: `return value` in a `&mut self` function")
@@ -1278,7 +1314,7 @@ class Translator:
     def tr_match(self, e, env, ctx, expected, final, ind):
         _, line, scrut, arms = e
         pad = " " * ind
-        stxt, stype = self.tr_expr(scrut, env, ctx, None, ind + 2)
+        stxt, stype = self.tr_expr(scrut, self.nt(env), ctx, None, ind + 2)
         out = [f"(match {stxt} with"]
         rtype = "never"
         for (pat, body) in arms:
@@ -1344,7 +1380,7 @@ class Translator:
         out = []
         for a, (pn, pt) in zip(args, g.params):
             pt = self.norm_type(pt, g.impl_type)
-            txt, t = self.tr_expr(a, env, ctx, pt, ind + 2)
+            txt, t = self.tr_expr(a, self.nt(env), ctx, pt, ind + 2)
             self.unify(t, pt, f"{self.where}: line {line}: argument `{pn}` of {g.name}")
             out.append(self.atom(txt))
         return out
@@ -1383,6 +1419,8 @@ class Translator:
     def tr_expr(self, e, env, ctx, expected, ind):
         k, line = e[0], e[1]
         W = f"{self.where}: line {line}"
+        if k not in ("paren", "if", "match", "block", "return"):
+            env = self.nt(env)          # operands, arguments, fields ... are not tail positions
         if k == "paren":
             return self.tr_expr(e[2], env, ctx, expected, ind)
         if k in ("deref", "ref"):
@@ -1497,9 +1535,10 @@ class Translator:
             _, _, cond, then, els = e
             if els is None:
                 raise RectTrError(f"{W}: `if` without `else` used as a value")
-            cnd, ctyp = self.tr_expr(cond, env, ctx, "bool", ind + 2)
+            cnd, ctyp = self.tr_expr(cond, self.nt(env), ctx, "bool", ind + 2)
             self.unify(ctyp, "bool", W)
             pad = " " * ind
+            env = self.freeze(env)
             a, at = self.tr_stmts(then[2], 0, then[3], env, ctx, expected, None, ind + 2)
             b, bt = self.tr_stmts(els[2], 0, els[3], env, ctx, expected if at in ("never", "int?") else at, None, ind + 2)
             if at == "int?" and bt in ("i32", "u32"):
@@ -1509,7 +1548,7 @@ class Translator:
         if k == "match":
             return self.tr_match(e, env, ctx, expected, None, ind)
         if k == "block":
-            txt, t = self.tr_stmts(e[2], 0, e[3], env, ctx, expected, None, ind)
+            txt, t = self.tr_stmts(e[2], 0, e[3], self.freeze(env), ctx, expected, None, ind)
             return (f"({txt})" if e[2] else txt), t
         if k == "return":
             return self.tr_return(e, env, ctx, ind)
@@ -1752,9 +1791,106 @@ def failed_file(reason):
             f"def translationFailed : String := \"{r}\"\n\nend EG.Generated.RectSrc\n")
 
 
+# ---------------------------------------------------------------------------------------------------------------
+# self test: constructs that must be REFUSED (loudly) and a few that must translate to a known text
+# ---------------------------------------------------------------------------------------------------------------
+
+SELFTEST_PRELUDE = """
+pub struct Point { pub x: i32, pub y: i32 }
+pub struct Size { pub width: u32, pub height: u32 }
+pub struct Rectangle { pub top_left: Point, pub size: Size }
+pub enum AnchorX { Left, Center, Right }
+impl Point { pub const fn new(x: i32, y: i32) -> Self { Point { x, y } } }
+impl Rectangle {
+    fn bump(&mut self, d: i32) { self.top_left.x += d; }
+"""
+
+# (name, body of `fn name(&self, a: i32, b: u32, k: AnchorX, o: Option<Point>) -> RET`, RET, expected error fragment or None, expected Lean fragment)
+SELFTEST_CASES = [
+    ("ok_prec", "-a as u32 * 2", "u32", None, "(u32_mul (i32_as_u32 (i32_neg a)) (2 : Nat))"),
+    ("ok_early_return", "if a > 0 { return 1; } let c = a + 1; c", "i32", None, "if (i32_gt a (0 : Int)) then\n    (1 : Int)\n  else\n    let c := (i32_add a (1 : Int));"),
+    ("ok_mut_local", "let mut r = *self; r.bump(a); r.size.width = b; r", "Rectangle", None, "let r := RectSrc.bump r a;"),
+    ("ok_match_or", "match k { AnchorX::Left | AnchorX::Center => 0, AnchorX::Right => a }", "i32", None, "| AnchorX.Left | AnchorX.Center =>"),
+    ("bad_while", "let mut i = 0; while i < a { i += 1; } i", "i32", "`while`", None),
+    ("bad_for", "for i in 0..a { } a", "i32", "`for`", None),
+    ("bad_loop", "loop { return a; }", "i32", "`loop`", None),
+    ("bad_question", "let p = o?; p.x", "i32", "`?` not supported", None),
+    ("bad_if_let", "if let Some(p) = o { p.x } else { a }", "i32", "`if let`", None),
+    ("bad_macro", "assert!(a > 0); a", "i32", "macro `assert!`", None),
+    ("bad_index", "let v = a; v[0]", "i32", "indexing", None),
+    ("bad_unknown_method", "a.wrapping_add(1)", "i32", "not known to the translator", None),
+    ("bad_unknown_fn", "helper(a)", "i32", "not found in the parsed sources", None),
+    ("bad_shift", "a << 1", "i32", "unexpected token `<`", None),
+    ("bad_rem", "a % 2", "i32", "operator `%` not supported", None),
+    ("bad_cast", "a as u8 as i32", "i32", "not supported", None),
+    ("bad_float", "let f = 1.5; a", "i32", "float literal", None),
+    ("bad_return_in_value", "let c = if a > 0 { return 1; } else { 2 }; c", "i32", "`return` inside an expression whose value is used", None),
+    ("bad_return_in_value_block", "let c = { if a > 0 { return 1; } 2 }; c", "i32", "`return` inside an expression whose value is used", None),
+    ("bad_lost_update", "let mut c = a; let d = if a > 0 { c = 1; 2 } else { 3 }; c + d", "i32", "modified inside a block used as a value", None),
+    ("bad_dropped_value", "a + 1; a", "i32", "has no translation", None),
+    ("bad_code_after_return", "return a; a", "i32", "code after `return`", None),
+    ("bad_type_mismatch", "b", "i32", "type mismatch", None),
+    ("bad_mixed_arith", "a + b", "i32", "not supported", None),
+    ("bad_mut_call_in_expr", "let mut r = *self; let q = r.bump(a); a", "i32", "only be called as a statement", None),
+    ("bad_closure", "let f = |x| x + 1; a", "i32", "closure outside a supported combinator", None),
+    ("bad_struct_pattern", "match o { Some(Point { x, y }) => x, None => a }", "i32", "struct patterns", None),
+    ("bad_guard", "match o { Some(p) if a > 0 => p.x, _ => a }", "i32", "match guards", None),
+    ("bad_literal_pattern", "match a { 0 => 1, _ => 2 }", "i32", "literal patterns", None),
+    ("bad_ref_mut", "let r = &mut a; a", "i32", "`&mut` expression", None),
+    ("bad_unsafe", "unsafe { a }", "i32", "`unsafe`", None),
+    ("bad_wide_literal", "a + 0x10", "i32", "integer literal", None),
+]
+
+
+def selftest():
+    """returns a list of problems (empty = fine)."""
+    problems = []
+    src = SELFTEST_PRELUDE
+    for (name, body, ret, _, _) in SELFTEST_CASES:
+        src += f"    fn {name}(&self, a: i32, b: u32, k: AnchorX, o: Option<Point>) -> {ret} {{ {body} }}\n"
+    src += "}\n"
+    try:
+        prog = Program()
+        parse_items(Cursor(tokenize(strip_comments(src, "selftest"), "selftest")), prog, "selftest")
+    except RectTrError as ex:
+        if "float literal" in str(ex):
+            # the tokenizer refuses float literals for the whole file: test the rest without that case
+            src2 = src.replace("let f = 1.5; a", "a")
+            prog = Program()
+            parse_items(Cursor(tokenize(strip_comments(src2, "selftest"), "selftest")), prog, "selftest")
+        else:
+            return [f"selftest input does not parse: {ex}"]
+    for (name, body, ret, err, frag) in SELFTEST_CASES:
+        if name == "bad_float":
+            try:
+                tokenize("fn f() -> i32 { let f = 1.5; 1 }", "selftest")
+                problems.append("bad_float: accepted")
+            except RectTrError:
+                pass
+            continue
+        tr = Translator(prog)
+        try:
+            tr.need(prog.fns[("Rectangle", None, name)])
+            text = tr.out[-1]
+            if err is not None:
+                problems.append(f"{name}: `{body}` was ACCEPTED but must be refused ({err}); output: {text.strip()[-200:]}")
+            elif frag not in text:
+                problems.append(f"{name}: `{body}` translated to unexpected text: {text}")
+        except RectTrError as ex:
+            if err is None:
+                problems.append(f"{name}: `{body}` refused: {ex}")
+            elif err not in str(ex):
+                problems.append(f"{name}: refused with an unexpected message: {ex} (expected `{err}`)")
+    return problems
+
+
 def generate(repo):
     try:
+        problems = selftest()
+        if problems:
+            raise RectTrError("translator self test failed: " + "; ".join(problems[:3]))
         text, info = translate(repo)
+        info["selftest_cases"] = len(SELFTEST_CASES)
         return {"RectSrc.lean": text}, info
     except RectTrError as ex:
         reason = str(ex)
@@ -1769,7 +1905,11 @@ if __name__ == "__main__":
     import json
     import sys
     repo = os.environ.get("EG_REPO", "/repo")
-    if len(sys.argv) > 1 and sys.argv[1] == "--strict":
+    if len(sys.argv) > 1 and sys.argv[1] == "--selftest":
+        ps = selftest()
+        print("\n".join(ps) if ps else f"selftest: {len(SELFTEST_CASES)} cases fine")
+        sys.exit(1 if ps else 0)
+    elif len(sys.argv) > 1 and sys.argv[1] == "--strict":
         t, i = translate(repo)
         print(t)
     else:
